@@ -37,12 +37,13 @@ def V(vid, prop, what, file=None, old=None, new=None, expect="fire", edits=None,
 
 # ------------------------------------------------------------------------------------------ C06
 V("C06-discard-first", "C06", "default mark cleared before __setval__ (which can raise for read-only fields)", CORE,
-  """                field.__setval__(self, value)
-                self._default_value_keys.discard(key)
-                return value""",
-  """                self._default_value_keys.discard(key)
+  """                value = field.validate(self, value)
                 field.__setval__(self, value)
-                return value""")
+            except ValidationError:""",
+  """                value = field.validate(self, value)
+                self._default_value_keys.discard(key)
+                field.__setval__(self, value)
+            except ValidationError:""")
 V("C06-store-before-load", "C06", "new sub-config stored before load_tree(value) can reject the dict", CORE,
   """            cfg._key = key
             cfg.load_tree(value)  # load_tree will raise a ValidationError on error
@@ -73,32 +74,30 @@ V("C06-dict-setitem-early", "C06", "DictProxy.__setitem__ stores the raw pair be
 
     def _ref_path""")
 V("C06-discard-finally", "C06", "discard moved into a finally clause (runs on rejection too)", CORE,
-  """            try:
-                value = field.validate(self, value)
-            except ValidationError:
-                raise
-            except Exception as err:
-                raise ValidationError(self, field, err) from err
+  """                raise ValidationError(self, field, err) from err
             else:
-                field.__setval__(self, value)
                 self._default_value_keys.discard(key)
                 return value""",
-  """            try:
-                value = field.validate(self, value)
-            except ValidationError:
-                raise
-            except Exception as err:
-                raise ValidationError(self, field, err) from err
+  """                raise ValidationError(self, field, err) from err
             else:
-                field.__setval__(self, value)
                 return value
             finally:
                 self._default_value_keys.discard(key)""")
 V("C06-benign-helper", "C06", "store + unmark extracted into a helper", CORE, expect="silent", edits=[
     (CORE, """                field.__setval__(self, value)
+            except ValidationError:
+                raise
+            except Exception as err:
+                raise ValidationError(self, field, err) from err
+            else:
                 self._default_value_keys.discard(key)
                 return value""",
      """                self._store(field, key, value)
+            except ValidationError:
+                raise
+            except Exception as err:
+                raise ValidationError(self, field, err) from err
+            else:
                 return value"""),
     (CORE, """    def __setattr__(self, name: str, value: Any) -> Any:
         \"\"\"
@@ -139,8 +138,8 @@ V("C01-insert-deleted", "C01", "ListProxy.insert override deleted (inherits list
   "    def insert(self, index: int, item: Any) -> None:\n        super().insert(index, self._validate(item))\n",
   "", expect_rule="override @ ListProxy")
 V("C01-validate-result-dropped", "C01", "_set_value stores the raw value, not validate()'s result", CORE,
-  "                value = field.validate(self, value)\n            except ValidationError:",
-  "                checked = field.validate(self, value)\n            except ValidationError:",
+  "                value = field.validate(self, value)\n                field.__setval__(self, value)",
+  "                checked = field.validate(self, value)\n                field.__setval__(self, value)",
   expect_rule="gateway.validated-store @ Field.__setval__")
 V("C01-ior-deleted", "C01", "DictProxy.__ior__ removed again (D11 re-introduced)", DICT,
   """    def __ior__(self, other: KeyValuePairs) -> "DictProxy":  # type: ignore[override,misc]
@@ -167,9 +166,19 @@ V("C01-update-kwargs-raw", "C01", "DictProxy.update passes keyword entries strai
   """        super().update(**kwargs)""", expect_rule="taint @ DictProxy.update")
 V("C01-benign-helper-store", "C01", "validated store moved behind a helper taking (field, value)", CORE, expect="silent",
   edits=[(CORE, """                field.__setval__(self, value)
+            except ValidationError:
+                raise
+            except Exception as err:
+                raise ValidationError(self, field, err) from err
+            else:
                 self._default_value_keys.discard(key)
                 return value""",
           """                self._store(field, key, value)
+            except ValidationError:
+                raise
+            except Exception as err:
+                raise ValidationError(self, field, err) from err
+            else:
                 return value"""),
          (CORE, """    def __setattr__(self, name: str, value: Any) -> Any:
         \"\"\"
@@ -183,21 +192,21 @@ V("C01-benign-helper-store", "C01", "validated store moved behind a helper takin
         Validate a configuration value and set it.""")])
 V("C01-benign-rename", "C01", "locals renamed in _set_value", CORE, expect="silent",
   edits=[(CORE, """                value = field.validate(self, value)
+                field.__setval__(self, value)
             except ValidationError:
                 raise
             except Exception as err:
                 raise ValidationError(self, field, err) from err
             else:
-                field.__setval__(self, value)
                 self._default_value_keys.discard(key)
                 return value""",
           """                checked = field.validate(self, value)
+                field.__setval__(self, checked)
             except ValidationError:
                 raise
             except Exception as err:
                 raise ValidationError(self, field, err) from err
             else:
-                field.__setval__(self, checked)
                 self._default_value_keys.discard(key)
                 return checked""")])
 
@@ -313,8 +322,8 @@ V("C12-ctor-skips-empty-schema", "C12", "constructor skips defaults for some fie
 V("C12-defined-wrong-set", "C12", "is_value_defined consults _data instead of the mark set", SUP,
   "    return key not in config._default_value_keys", "    return key in config._data", expect_rule="defined.is-complement")
 V("C12-field-not-unmarked", "C12", "accepted field assignment keeps the default mark", CORE,
-  "                field.__setval__(self, value)\n                self._default_value_keys.discard(key)\n                return value",
-  "                field.__setval__(self, value)\n                return value", expect_rule="pairing @ Field.__setval__")
+  "            else:\n                self._default_value_keys.discard(key)\n                return value",
+  "            else:\n                return value", expect_rule="pairing @ Field.__setval__")
 V("C12-default-then-unmark", "C12", "ChallengeField default reported as user-defined", SEC,
   "            raise TypeError(\"invalid default value: %r\" % self.default)\n        cfg._set_default_value(self._key, val)",
   "            raise TypeError(\"invalid default value: %r\" % self.default)\n        cfg._set_default_value(self._key, val)\n        cfg._default_value_keys.discard(self._key)",
